@@ -14,8 +14,8 @@ func errorsIs(err, target error) bool {
 	return false
 }
 
-//verif:harness C18 quick n=0..5
-//verif:harness C18 thorough n=6..6
+//verif:harness C18 quick n=0..4
+//verif:harness C18 thorough n=5..5
 func H_C18_totalSizeText(n int) {
 	vMergeOutcomes()
 	in := vBytes("in", n)
